@@ -77,14 +77,19 @@ class NumberType(Type):
         if unit:
             if self.unit and self.unit!=unit:
                 # a none value has no number to convert, but its unit must still be compatible
-                number = 1.0 if self.value is None else float(self.value)
+                if self.value is None:
+                    number = 1.0
+                elif isinstance(self.value, (list, tuple, np.ndarray)):   # arrays are converted element by element
+                    number = np.array(self.value, dtype=float)
+                else:
+                    number = float(self.value)
                 if env is None:
                     number = Quantity(number, self.unit).value(unit)
                 else:
                     with UnitEnvironment(env.units):
                         number = Quantity(number, self.unit).value(unit)
                 if self.value is not None:
-                    self.value = number
+                    self.value = number.tolist() if isinstance(self.value, (list, tuple)) else number
                 self.unit = unit
         return self
  
